@@ -49,7 +49,7 @@ NODE_KINDS = {'lit', 'id', 'sel', 'has', 'idx', 'call', 'mcall', 'list', 'map', 
 
 
 def units(tier, seed):
-    return [('programs', i) for i in range(32 if tier == 'quick' else 200)]
+    return [('programs', i) for i in range(32 if tier == 'quick' else 1600)]
 
 
 def add_dots(e, rng):
